@@ -1024,11 +1024,11 @@ class VTF:
                 self._frames[frame_num, depth_side, 0].load()
                 for mipmap in range(1, self.mipmap_count):
                     frm = self._frames[frame_num, depth_side, mipmap]
-                    if frm._data is None:
-                        frm.rescale_from(
-                            self._frames[frame_num, depth_side, mipmap - 1],
-                            filter,
-                        )
+                    # Only frames that were cleared, ones not yet read from the file still have data.
+                    if frm._data is None and frm._fileinfo is None:
+                        parent = self._frames[frame_num, depth_side, mipmap - 1]
+                        parent.load()
+                        frm.rescale_from(parent, filter)
 
         # Also regenerate the low-res format.
         if self.low_format is not ImageFormats.NONE:
